@@ -133,3 +133,8 @@ PROPS["C15"] = {
             ob("push_counts", "ob_index", "push_step", kwargs={"L": 3})],
     "assumptions": COMMON_M + ["outside: disk_used, corrupted_blobs_count, next_blob_id after restart"],
 }
+
+PROPS["C01"]["mir"].append(ob("latest_entry_fold", "ob_storage", "latest_entry_fold", kwargs={"B": 2}, thorough_kwargs={"B": 3}))
+PROPS["C02"]["mir"] += [ob("read_all_merge_2x2", "ob_storage", "read_all_merge", kwargs={"B": 1, "Lb": 2}),
+                        ob("read_all_merge_3x1", "ob_storage", "read_all_merge", kwargs={"B": 2, "Lb": 1}),
+                        ob("read_all_merge_3x2", "ob_storage", "read_all_merge", tier="thorough", kwargs={"B": 2, "Lb": 2})]
